@@ -92,10 +92,10 @@ def make_script_strategy(script=None, observer=None, triggers=None):
     return ScriptStrategy()
 
 
-def build_actuator(markets, prices, quote_token, assets, strategy=None, interval="1min"):
+def build_actuator(markets, prices, quote_token, assets, strategy=None, interval="1min", allow_negative_balance=False):
     from demeter import Actuator
 
-    a = Actuator()
+    a = Actuator(allow_negative_balance) if allow_negative_balance else Actuator()
     for m in markets:
         a.broker.add_market(m)
     for tok, amt in assets.items():
@@ -110,12 +110,12 @@ def build_actuator(markets, prices, quote_token, assets, strategy=None, interval
 class Frozen:
     """A broker with markets held at one bar of their data.  Actions are recorded like the Actuator does."""
 
-    def __init__(self, markets, prices_row, quote_token, assets, timestamp):
+    def __init__(self, markets, prices_row, quote_token, assets, timestamp, allow_negative_balance=False):
         from demeter import Broker, MarketStatus
 
         self.actions = []
         self.timestamp = timestamp
-        self.broker = Broker(False, self._record)
+        self.broker = Broker(bool(allow_negative_balance), self._record)
         self.broker.quote_token = quote_token
         self.markets = list(markets)
         for m in self.markets:
